@@ -365,10 +365,12 @@ def switchDecision : SwAction → ValueCondition → SwDecision
   | .error, .vacant v => .fail v
 
 /-- `switch::attribute` -/
-def reattribute (p : Phrase) : Phrase :=
-  p.mapChars (fun c => match c.origin with
-    | .literal => { c with origin := .softExpansion }
-    | _ => c)
+def softenChar (c : AttrChar) : AttrChar :=
+  match c.origin with
+  | .literal => { c with origin := .softExpansion }
+  | _ => c
+
+def reattribute (p : Phrase) : Phrase := p.mapChars softenChar
 
 /-- `param.rs` `to_field` -/
 def toField (s : List Char) : List AttrChar := s.map softChar
